@@ -24,6 +24,10 @@ RULE = (
     "data must have the shape the selection sets and types determine (compared with R-EXEC when the "
     "IR is known, type-shape walk otherwise), including the shape the selection sets alone imply: "
     "every unconditionally selected key present, objects exactly where a sub-selection is written. "
+    ""
+    "Further classes: list literals at non-list positions, documents parsed with experimental "
+    "fragment variables (validation only), and accepted documents against 70 more schemas per "
+    "shard.  "
     "Non-trivial = distinct adversarial / mutated document, "
     "or a valid one that was also executed."
 )
